@@ -1,4 +1,4 @@
-import AasVerif.Lemmas.Yielding.Pipeline
+import AasVerif.Lemmas.Yielding.LastStmt
 /-!
 # C26 — Yield-flow linearization preserves behaviour
 
@@ -108,6 +108,46 @@ theorem pipeline_events (flow : List Node) (hwf : wfSeq flow = true) (orc : List
   rw [hk m hm]
   unfold Result.withEnd
   split <;> rfl
+
+/-- How the run ends, in terms of the flow: if the last top-level node is a `Command` (all flows
+built in `cpp/lib/_generate_iteration.py` end like that) the state machine gives exactly the
+structured result, status included. -/
+theorem pipeline_correct_partial (flow : List Node) (hwf : wfSeq flow = true)
+    (hend : flowEndsCmd flow = true) (orc : List Bool) :
+    ∃ k, ∀ m, k ≤ m → runSubFuel m (toSubroutines flow) orc = Flow.run flow orc := by
+  obtain ⟨k, hk⟩ := pipeline_correct flow hwf orc
+  refine ⟨k, fun m hm => ?_⟩
+  have hne : flow ≠ [] := by intro h; subst h; simp [flowEndsCmd] at hend
+  have hflat : (toSubroutines flow).flatten = finalStmts flow := by
+    cases flow with
+    | nil => exact absurd rfl hne
+    | cons nd rest => rw [toSubroutines_cons]; exact (stages _ hwf).flat
+  rw [hk m hm, hflat, endStatus_final flow hwf hne, hend]
+  unfold Result.withEnd
+  split
+  · rename_i h; cases hr : Flow.run flow orc; simp_all
+  · rfl
+
+/-- … and otherwise (last node is a yield, an if or a loop) the emitted C++ falls through into
+`default:` when the structured flow ends: `std::logic_error` instead of a clean return. -/
+theorem pipeline_end_status (flow : List Node) (hwf : wfSeq flow = true) (hne : flow ≠ [])
+    (hend : flowEndsCmd flow = false) (orc : List Bool) :
+    ∃ k, ∀ m, k ≤ m → runSubFuel m (toSubroutines flow) orc =
+      (Flow.run flow orc).withEnd (.crash .invalidState) := by
+  obtain ⟨k, hk⟩ := pipeline_correct flow hwf orc
+  refine ⟨k, fun m hm => ?_⟩
+  have hflat : (toSubroutines flow).flatten = finalStmts flow := by
+    cases flow with
+    | nil => exact absurd rfl hne
+    | cons nd rest => rw [toSubroutines_cons]; exact (stages _ hwf).flat
+  rw [hk m hm, hflat, endStatus_final flow hwf hne, hend]
+  rfl
+
+/-- non-vacuity: the flow of `test_inspired_by_verificator`-style shape ends with a command -/
+example : wfSeq [.ifThen false 1 [.command 2, .yield], .forLoop (some 3) 4 5 [.yield], .command 6]
+      = true ∧
+    flowEndsCmd [.ifThen false 1 [.command 2, .yield], .forLoop (some 3) 4 5 [.yield], .command 6]
+      = true := by decide
 
 /-- Subroutine `i` carries label `i`, only its first statement is labelled, no subroutine is
 empty (`@require`s of `Subroutine`), a `yield` ends its subroutine. -/
